@@ -83,6 +83,12 @@ CLAIMED["C09"] = dict(
    text="For generated trees and available widths 0..200 the measurement must satisfy 0 <= min <= max <= available, and rendering at the reported minimum and maximum (when at or above the structural minimum) must not produce a wider line; for tab-free text the minimum/maximum must equal the widest word/line and wrapping at the maximum must reproduce the newline-split lines.",
    note="Same option domain as C01; measurement taken on a 200-cell console with explicit available width.",
    ref="5 C09")
+CLAIMED["C14"] = dict(
+   technique="exhaustive enumeration of token-alphabet strings per entry point + Hypothesis random Unicode + Hypothesis renderable trees over the whole option space, with an exception-type allow-list oracle; atheris coverage-guided fuzzing of the parsers in the thorough tier",
+   level="exploration",
+   text="Every string of up to 3 (quick) / 4 (thorough) syntax-significant tokens is fed to each of ten entry points and any exception outside the documented type is a violation bucketed by (type, innermost rich frame); random surrogate-free Unicode and generated renderable trees with every valid option at widths 1..200 (render, print, measure; non-termination caught by a render-call counter) extend the search; the thorough tier adds an atheris campaign from an empty and a token corpus.",
+   note="Documented outcomes per entry point as listed in the evidence assumptions; ratio 0 and widths below the structural minimum are in this domain (must not crash).",
+   ref="5 C14")
 NOT_YET = {}
 props = [json.loads(l) for l in open(os.path.join(V, "properties.jsonl"))]
 checks = []
